@@ -41,6 +41,7 @@ type Entry struct {
 	Backup    string   `json:",omitempty"`
 	Referrers bool     `json:",omitempty"`
 	DigTags   bool     `json:",omitempty"`
+	Twin      bool     `json:",omitempty"` // a first entry syncs the index image of another registry for platform linux/arm64 into twin/arm:idx
 }
 type Case struct {
 	Kind     string // sync
@@ -98,6 +99,7 @@ type image struct {
 	digest string
 	mt     string
 	plat   string // digest of the linux/amd64 child when the image is an index
+	plat2  string // digest of the linux/arm64 child
 }
 
 func mkImages(r *lib.Rand, uniq string) []image {
@@ -114,7 +116,7 @@ func mkImages(r *lib.Rand, uniq string) []image {
 		case 3: // an index
 			a, b := mk("amd64", false), mk("arm64", false)
 			g.Root = g.Index(false, []*imgen.Node{a, b}, uniq)
-			im.plat = a.Digest
+			im.plat, im.plat2 = a.Digest, b.Digest
 		case 4: // Docker media type
 			g.Root = mk("amd64", true)
 		default:
@@ -256,11 +258,29 @@ func runCaseRaw(c Case, outDir string, res *lib.Result) []string {
 	// configuration
 	e := c.Entry
 	var sb strings.Builder
+	twinAddr := ""
+	if e.Twin {
+		twinReg := memreg.New("twin.example", memreg.Features{})
+		load(twinReg, "twin/src", "idx", imgs[3])
+		tw, err := serve(twinReg)
+		if err != nil {
+			res.Count("setup-failed")
+			return nil
+		}
+		defer tw.srv.Close()
+		twinAddr = tw.addr
+	}
 	defMT := ""
 	if e.DefDocker {
 		defMT = "  mediaTypes: [\"application/vnd.docker.distribution.manifest.v2+json\", \"application/vnd.docker.distribution.manifest.list.v2+json\"]\n"
 	}
 	fmt.Fprintf(&sb, "version: 1\ncreds:\n  - registry: %s\n    tls: disabled\n  - registry: %s\n    tls: disabled\ndefaults:\n  parallel: %d\n  skipDockerConfig: true\n%ssync:\n", ss.addr, ts.addr, c.Parallel, defMT)
+	if e.Twin { // the same index as some tags of the source, for another platform, resolved first
+		cfg := sb.String()
+		sb.Reset()
+		sb.WriteString(strings.Replace(cfg, "defaults:\n", fmt.Sprintf("  - registry: %s\n    tls: disabled\ndefaults:\n", twinAddr), 1))
+		fmt.Fprintf(&sb, "  - source: %s/twin/src:idx\n    target: %s/twin/arm:idx\n    type: image\n    platform: linux/arm64\n", twinAddr, ts.addr)
+	}
 	switch e.Type {
 	case "image":
 		fmt.Fprintf(&sb, "  - source: %s/%s:%s\n    target: %s/%s:%s\n    type: image\n", ss.addr, e.Repo, e.Tag, ts.addr, tgtRepoOf(e.Repo), e.Tag)
@@ -367,6 +387,13 @@ func runCaseRaw(c Case, outDir string, res *lib.Result) []string {
 			selRepos[e.Repo] = true
 		}
 		expectedTouched := map[string]bool{} // "repo\x00tag" that may change
+		if e.Twin {
+			expectedTouched["twin/arm\x00idx"] = true
+			if got := after["twin/arm"]["idx"]; c.Action != "check" && mediaAllowed(Entry{DefDocker: e.DefDocker}, imgs[3].mt) && got != imgs[3].plat2 && !failed {
+				res.Fail("selected-tag-not-synced type=image platform=linux/arm64", fmt.Sprintf("twin/arm:idx is %q after a successful run, the linux/arm64 image of the source index is %s", got, imgs[3].plat2), c)
+				failed = true
+			}
+		}
 		for _, repo := range repoPool {
 			tr := tgtRepoOf(repo)
 			for t, k := range srcTags[repo] {
@@ -591,6 +618,7 @@ func genCase(r *lib.Rand) Case {
 		}
 	}
 	e.Platform, e.OCIOnly = r.Chance(30), r.Chance(25)
+	e.Twin = e.Platform && len(e.Allow)%2 == 0
 	e.DefDocker = r.Chance(25)
 	if r.Chance(40) {
 		e.Backup = lib.Pick(r, []string{"bak-{{.Ref.Tag}}", "old-{{.Ref.Tag}}"})
@@ -642,6 +670,9 @@ func Run(o lib.Opts) {
 		// a second run with (mostly) nothing to do, platform selection and a backup template: an idle run takes no backup
 		{Kind: "sync", Seed: 78, Action: "once", Parallel: 1, Rounds: 2, Entry: Entry{Type: "registry", Platform: true, Backup: "bak-{{.Ref.Tag}}"}},
 		{Kind: "sync", Seed: 79, Action: "once", Parallel: 2, Rounds: 2, Entry: Entry{Type: "registry", Platform: true, Backup: "old-{{.Ref.Tag}}"}},
+		// two entries that resolve the same source index for different platforms in one process
+		{Kind: "sync", Seed: 80, Action: "once", Parallel: 1, Rounds: 1, Entry: Entry{Type: "registry", Platform: true, Twin: true}},
+		{Kind: "sync", Seed: 81, Action: "once", Parallel: 1, Rounds: 2, Entry: Entry{Type: "registry", Platform: true, Twin: true}},
 		{Kind: "sync", Seed: 77, Action: "check", Parallel: 2, Rounds: 1, Entry: Entry{Type: "repository", Repo: "proj/lib", Backup: "bak-{{.Ref.Tag}}"}},
 	}
 	n := o.Scale(70, 1200)
